@@ -118,6 +118,7 @@ class Rec:
         self.events = []
         self.disagreements = []
         self.model_ok = ctx.model_ok
+        self.search_mode = getattr(ctx, 'search_mode', False)
         self.verif = ctx.verif
         self.repo = ctx.repo
         self.traces = 0
@@ -409,10 +410,13 @@ class C06(Check):
         return pending
 
     def flush(self, ctx, pending):
-        if not pending or not ctx.model_ok:
-            return
-        outs = ctx.driver([l for l, _ in pending])
-        for (line, case), m in zip(pending, outs):
+        if not pending or not ctx.model_ok or getattr(ctx, 'search_mode', False):
+            return      # (the search looks for a failing input on the implementation: oracle only)
+        n = len(pending)
+        # every request twice: `sheet` = the model serializer on the DOM under the record; `effsheet` = the model
+        # serializer on the TRANSFORMED DOM (`effectSheet`) under the record with the leaf preferences neutral
+        outs = ctx.driver([l for l, _ in pending] + ['eff' + l for l, _ in pending])
+        for (line, case), m, me in zip(pending, outs[:n], outs[n:]):
             res = case['res']
             if res[0] == 'OK':
                 got = 'OK ' + enc(res[1])
@@ -434,6 +438,13 @@ class C06(Check):
                     prefs = self.shrink_prefs(ctx, case['src'], prefs)
                 ctx.disagree('sheet.cssText', {'src': case['src'], 'prefs': prefs, 'shrunk_from': case['prefs'],
                                                'raw': case.get('raw', False)}, a[:3000], bm[:3000])
+            elif me != m:
+                # the model agrees with the code on the DOM, but the transformed DOM under the neutral record is
+                # written differently: the DOM rewrite is not the whole effect of the leaf preferences
+                ctx.disagree('effect DOM under the neutral record', {'src': case['src'], 'prefs': case['prefs'],
+                                                                     'raw': case.get('raw', False)},
+                             (dec(m[3:]) if m.startswith('OK ') else m)[:3000],
+                             (dec(me[3:]) if me.startswith('OK ') else me)[:3000])
 
     def disagrees(self, ctx, src, d):
         im = self.im
@@ -710,7 +721,7 @@ class C06(Check):
         self.par(ctx, im, [{'src': wraps[i % 4] % b, 'records': recs, 'kind': 'cascade'} for i, b in enumerate(blocks)])
 
     def run_sheets(self, ctx, im):
-        rng = ctx.sub_rng('sheets')
+        rng = ctx.sub_rng('sheets' + getattr(self, 'salt', ''))
         singles = self.singles(im)
         n_all = ctx.n(10, 60)         # sheets that get singles + ALL PAIRS + minified + random records
         n_some = ctx.n(80, 1500)      # sheets that get default, minified, a few singles, pairs and random records
@@ -732,7 +743,7 @@ class C06(Check):
         self.par(ctx, im, jobs)
 
     def run_files(self, ctx, im):
-        rng = ctx.sub_rng('files')
+        rng = ctx.sub_rng('files' + getattr(self, 'salt', ''))
         files = sorted(glob.glob(os.path.join(ctx.repo, 'sheets', '*.css'))
                        + glob.glob(os.path.join(ctx.repo, 'cssutils', 'tests', 'sheets', '*.css')))
         limit = ctx.n(12000, 120000)
@@ -867,6 +878,45 @@ class C06(Check):
                             {'default': d0.decode('utf-8', 'replace')[:300], 'after': d1.decode('utf-8', 'replace')[:300]})
 
     # ------------------------------------------------------------------------------------------
+    SEARCH_BUDGET_S = 75
+
+    def search(self, ctx):
+        """A proof obligation or the correspondence broke: look for a concrete failing input ON THE IMPLEMENTATION
+        (oracle only, no model), time-boxed. First the inputs on which model and code disagree — under the record of
+        the disagreement, each of its assignments alone, the minified preset; then fresh generator rounds of quick
+        size in the pool until a violation shows or the budget is used up."""
+        ctx.search_mode = True
+        im = getattr(self, 'im', None) or Impl()
+        self.im = im
+        t0 = time.time()
+        try:
+            seen = set()
+            for d in list(ctx.disagreements):
+                inp = d.get('input') if isinstance(d.get('input'), dict) else None
+                if not inp or 'src' not in inp:
+                    continue
+                full = inp.get('shrunk_from') or inp.get('prefs') or {}
+                recs = [inp.get('prefs') or {}, full] + [{k: v} for k, v in full.items()] \
+                    + [{}, diff_prefs(im.minified, im.defaults)]
+                key = (inp['src'], repr(recs))
+                if key in seen:
+                    continue
+                seen.add(key)
+                self.check_sheet(ctx, im, inp['src'], recs, 'search-disagreement')
+                if ctx.violations:
+                    return
+            rnd = 0
+            while not ctx.violations and time.time() - t0 < self.SEARCH_BUDGET_S:
+                rnd += 1
+                self.salt = '/search%d' % rnd
+                self.run_sheets(ctx, im)
+                if rnd % 4 == 1 and not ctx.violations:
+                    self.run_files(ctx, im)
+            ctx.notes['search_rounds'] = rnd
+        finally:
+            self.salt = ''
+            im.cu.ser.prefs.useDefaults()
+
     def known(self, ctx, finding):
         im = getattr(self, 'im', None) or Impl()
         w = finding['witness']['data']
